@@ -509,7 +509,7 @@ func specMapped(m *mappedFile) bool {
 //@   modifies heap, $ledger, $lost
 
 //@ contract (*file).newCounter1
-//@   modifies heap, $minsize, $fsops
+//@   modifies heap, $minsize, $fsops, $tried
 
 //@ contract (*file).rotate1
 //@   requires $rd == 0 && $lk == 0
